@@ -1,0 +1,46 @@
+// +build verif
+
+package node
+
+import (
+	"github.com/youzan/ZanRedisDB/transport/rafthttp"
+)
+
+// Hooks for deterministic simulation. Only compiled with the verif build tag.
+
+// VerifPointHook, when set, is called at named points of the raft loop, the
+// apply loop and the snapshot goroutine. A simulator parks the calling
+// goroutine there (crash point, yield point) or just counts.
+var VerifPointHook func(name string)
+
+func verifPoint(name string) {
+	if h := VerifPointHook; h != nil {
+		h(name)
+	}
+}
+
+// VerifSetTransport replaces the transport of the raft node (the constructor
+// takes the concrete *rafthttp.Transport but the field is the interface).
+// Must be called before Start.
+func (nd *KVNode) VerifSetTransport(t rafthttp.Transporter) { nd.rn.transport = t }
+
+// VerifStateMachine returns the state machine of the node.
+func (nd *KVNode) VerifStateMachine() StateMachine { return nd.sm }
+
+// VerifKVStore returns the store behind a kv state machine (nil otherwise).
+func VerifKVStore(sm StateMachine) *KVStore {
+	if k, ok := sm.(*kvStoreSM); ok {
+		return k.store
+	}
+	return nil
+}
+
+// VerifRaftStorageLastIndex exposes the in-memory raft storage indexes.
+func (nd *KVNode) VerifRaftStorageIndexes() (first uint64, last uint64) {
+	if nd.rn.raftStorage == nil {
+		return 0, 0
+	}
+	first, _ = nd.rn.raftStorage.FirstIndex()
+	last, _ = nd.rn.raftStorage.LastIndex()
+	return
+}
